@@ -14,7 +14,7 @@
    theorems [add_mapped_trait_installs_shadow], [remove_mapped_trait_clears_derived_name],
    [remove_trait_restores_class_rule_for_derived_names] at the end. *)
 From Coq Require Import ZArith List Bool.
-From TV Require Import Common.Harness C13.Model C13.Law C13.Corr C13.Proofs C13.MapProofs C13.ListenerProofs C13.ClassOpProofs.
+From TV Require Import Common.Harness C13.Model C13.Law C13.Corr C13.Proofs C13.MapProofs C13.ListenerProofs C13.ClassOpProofs C13.ListenerInd C13.ClassOpInd.
 Import ListNotations.
 Open Scope Z_scope.
 
@@ -615,3 +615,187 @@ Example runtime_wildcards_demo :
           CorrT.TObj 1 (OGet [99; 97; 98; 121]); CorrT.TClass 3 [99; 95] PDisallow]) =
   [Done; Done; Val 7; Raise TraitError; Val 102; Raise TraitError; Val 7; Raise TraitError].
 Proof. vm_compute. reflexivity. Qed.
+
+
+(* ==== depth round: inductive theorems for what was "direct theorems + correspondence" ==== *)
+
+(* The law on EVERY history of a class with a trait_added listener (Model.step_l), by induction:
+   every hierarchy and class without Map/List declarations, every listener table of plain traits
+   (prefix -> policy), every history of get / set / del / add_trait / remove_trait on one object.
+   [law_hist_l] is the law the checker evaluates for listener classes (CorrL.law_tag_l without the
+   re-labelling, [listener_law_codes_relabelling_is_faithful]); [run_lk] records after each step
+   the instance trait of the name as the driver does.  Hypothesis [lclean_run]: the first listed
+   finding excluded (no value-less trait — added by add_trait or by the listener — over a value
+   already stored), no Map/List add_trait, and an add_trait whose trait the listener replaces is
+   either the same trait or distinguishable from it by the observation (handler class, default). *)
+Theorem law_holds_on_every_listener_history :
+  forall (h : list classdef) (c : nat) (lst : list (name * policy)) (ops : list op) (i : Z),
+    plain_class h c = true ->
+    (forall n lp, listener lst n = Some lp -> plainp lp = true) ->
+    let t := class_tables h c in
+    lclean_run (snd t) lst (init_state (fst t)) ops = true ->
+    law_hist_l lst (spec_rule h c) i l_init (run_lk lst (snd t) (init_state (fst t)) ops) = [].
+Proof. exact law_listener_histories. Qed.
+Print Assumptions law_holds_on_every_listener_history.
+
+Theorem listener_law_codes_relabelling_is_faithful :
+  forall lst mr sr h i la lb,
+    C13.CorrL.law_tag_l lst mr sr i la lb (map (fun x => (false, fst (fst x), snd (fst x), snd x)) h) = [] <->
+    law_hist_l lst mr i la h = [].
+Proof. exact law_tag_l_single. Qed.
+Print Assumptions listener_law_codes_relabelling_is_faithful.
+
+(* Non-vacuity: strict class with a wildcard; listener n_* -> Int(7), k_* -> Constant(42), e_* -> Event;
+   first touches by invalid write, write to the Constant, read, delete, add_trait (replaced by the
+   listener's trait), later accesses, remove_trait and a second first touch *)
+Example listener_history_nontrivial :
+  let t := class_tables [mkClass [([97; 95], PTyped VStr 102)] [1%nat]] 3 in
+  let lst := [([110; 95], PTyped VInt 7); ([107; 95], PConstant 42); ([101; 95], PEvent None)] in
+  let ops := [OSet [110; 95; 98] 101; OGet [110; 95; 98]; OSet [107; 95; 99] 1; OGet [107; 95; 99]; OGet [110; 95; 100];
+              ODel [110; 95; 101]; OAdd [110; 95; 102] (PTyped VStr 102); OSet [110; 95; 102] 101; OSet [110; 95; 102] 5;
+              OSet [101; 95; 97] 3; OGet [101; 95; 97]; ORem [110; 95; 98]; OGet [110; 95; 98]; OSet [97; 98] 101; OGet [122]] in
+  lclean_run (snd t) lst (init_state (fst t)) ops = true /\
+  map (fun x => o_out (snd (fst x))) (run_lk lst (snd t) (init_state (fst t)) ops) =
+  [Raise TraitError; Val 7; Raise TraitError; Val 42; Val 7; Done; Done; Raise TraitError; Done;
+   Done; Raise AttributeError; Val 1; Raise AttributeError; Done; Raise AttributeError].
+Proof. vm_compute. split; reflexivity. Qed.
+
+
+(* add_class_trait, inductively.  ANY class of ANY hierarchy (hh = pre ++ cd :: post, k = its
+   position; ancestors arbitrary, multiple inheritance included), tables without Map/List;
+   ANY sequence of add_class_trait(name, trait) calls on that class — accepted or rejected
+   (already defined), explicit names and wildcards in any order, plain traits — [class_phase];
+   then EVERY clean history on a fresh instance: the law holds with the class-level rule computed
+   from the hierarchy WITH the accepted run-time declarations appended to the class body
+   ([snd (class_phase ...)], the checker's CorrT.add_decl: [runtime_declarations_bookkeeping]).
+   Behind it: [add_class_trait_is_a_declaration] — one accepted call keeps the class's tables in
+   agreement (dictionaries equal, prefix list sorted longest first) with the declarative tables
+   of the class body extended by that declaration. *)
+Theorem law_holds_after_runtime_declarations :
+  forall pre cd post adds ops i,
+    let hh := pre ++ cd :: post in
+    let k := length pre in
+    plain_t (tabs_nth (tables hh) k) = true ->
+    forallb (fun e => plainp (snd e)) adds = true ->
+    let ph := class_phase hh k (tables hh) hh adds in
+    let t := tabs_nth (fst ph) k in
+    clean_run (snd t) (init_state (fst t)) ops = true ->
+    law_hist (class_rule (vis_nth (visible (snd ph)) k)) i l_init (run (snd t) (init_state (fst t)) ops) = [].
+Proof. exact class_ops_then_history. Qed.
+Print Assumptions law_holds_after_runtime_declarations.
+
+(* the same for the runs the checker evaluates (CorrT.step_t on the tables of all classes) *)
+Theorem law_holds_on_class_operation_runs :
+  forall pre cd post adds ops i,
+    let hh := pre ++ cd :: post in
+    let k := length pre in
+    plain_t (tabs_nth (tables hh) k) = true ->
+    forallb (fun e => plainp (snd e)) adds = true ->
+    let t := tabs_nth (fst (class_phase hh k (tables hh) hh adds)) k in
+    clean_run (snd t) (init_state (fst t)) ops = true ->
+    law_hist_ta [k] hh i [l_init]
+      (run_t hh [k] (tables hh, [([], [])])
+             (map (fun e => C13.CorrT.TClass k (fst e) (snd e)) adds ++ map (C13.CorrT.TObj 0) ops)) = [].
+Proof. exact class_ops_run. Qed.
+Print Assumptions law_holds_on_class_operation_runs.
+
+Theorem add_class_trait_is_a_declaration :
+  forall V cd t n p t', plainp p = true ->
+    Agr t (vis_class V cd) -> add_class1 false t n p = Some t' ->
+    Agr t' (vis_class V (mkClass (c_decls cd ++ [(n, p)]) (c_bases cd))).
+Proof. exact Agr_add. Qed.
+Print Assumptions add_class_trait_is_a_declaration.
+
+Theorem runtime_declarations_bookkeeping :
+  forall h k n p, (3 <= k)%nat -> app_decl (roots ++ h) k (n, p) = roots ++ C13.CorrT.add_decl h k n p.
+Proof. exact app_decl_roots. Qed.
+Print Assumptions runtime_declarations_bookkeeping.
+
+(* the two cached-name findings: when the name was touched (resolved, cached) BEFORE the matching
+   add_class_trait the law fails on the model too — which is why the theorem above has the class
+   operations before the first use of the instance *)
+Theorem runtime_wildcard_after_use_refuted :
+  let hh := roots ++ [mkClass [] [0%nat]] in
+  law_hist_ta [3%nat] hh 0 [l_init]
+    (run_t hh [3%nat] (tables hh, [([], [])])
+       [C13.CorrT.TObj 0 (OGet n_cax); C13.CorrT.TClass 3 [99; 95] (PTyped VInt 7); C13.CorrT.TObj 0 (OGet n_cax)]) <> [].
+Proof. exact cached_wildcard_refutes. Qed.
+Print Assumptions runtime_wildcard_after_use_refuted.
+
+Theorem runtime_class_trait_after_use_refuted :
+  let hh := roots ++ [mkClass [] [0%nat]; mkClass [] [3%nat]] in
+  law_hist_ta [4%nat] hh 0 [l_init]
+    (run_t hh [4%nat] (tables hh, [([], [])])
+       [C13.CorrT.TObj 0 (OGet n_zz); C13.CorrT.TClass 3 n_zz (PTyped VStr 102); C13.CorrT.TObj 0 (OGet n_zz)]) <> [].
+Proof. exact cached_class_trait_refutes. Qed.
+Print Assumptions runtime_class_trait_after_use_refuted.
+
+(* Non-vacuity: strict class B(A) in a hierarchy with a sibling; on B: cab_ = Int accepted, c_ = Str
+   accepted, c_ again rejected, explicit cq = ReadOnly accepted, a wildcard declared in the body rejected;
+   then a history: cabx is an Int, cx a Str, cq write-once, cz still rejected by the strict default *)
+Example runtime_declarations_nontrivial :
+  let pre := roots ++ [mkClass [([100; 95], PEvent None)] [1%nat]] in
+  let cd := mkClass [([101; 95], PAny 5)] [3%nat] in
+  let post := [mkClass [] [3%nat]] in
+  let adds := [([99; 97; 98; 95], PTyped VInt 7); ([99; 95], PTyped VStr 102); ([99; 95], PDisallow);
+               ([99; 113], PReadOnly VUndef); ([101; 95], PDisallow)] in
+  let hh := pre ++ cd :: post in
+  let ph := class_phase hh 4 (tables hh) hh adds in
+  let t := tabs_nth (fst ph) 4 in
+  let ops := [OGet [99; 97; 98; 120]; OSet [99; 97; 98; 120] 101; OGet [99; 120]; OSet [99; 113] 1; OSet [99; 113] 2;
+              OGet [122]; OSet [100; 120] 1; OGet [101; 120]] in
+  plain_t (tabs_nth (tables hh) 4) = true /\
+  clean_run (snd t) (init_state (fst t)) ops = true /\
+  map (fun e => length (c_decls e)) (snd ph) = [3; 1; 2; 1; 4; 0]%nat /\
+  map (fun x => o_out (snd x)) (run (snd t) (init_state (fst t)) ops) =
+  [Val 7; Raise TraitError; Val 102; Done; Raise TraitError; Raise AttributeError; Done; Val 5].
+Proof. vm_compute. repeat split; reflexivity. Qed.
+
+
+(* add_class_trait on the object's own class INTERLEAVED with the object's operations, any order and
+   number ([orun]: the object and the prefix list of its class; [law_hist_o]: the law with the
+   class-level rule recomputed from the hierarchy after every accepted call).  Hypothesis
+   [oclean_run] (boolean, evaluated along the run): finding 1, Map/List traits, and the cached-name
+   finding are excluded — an accepted run-time wildcard must not match a name already cached in the
+   class dictionary or stored in the object unless that name is declared, governed by an instance
+   trait, or a __x__ name; an accepted explicit name must not already hold a value unless its trait
+   stores values.  ([runtime_wildcard_after_use_refuted] shows the exclusion is needed.) *)
+Theorem law_holds_on_interleaved_class_operations :
+  forall pre cd post xs i,
+    let hh := pre ++ cd :: post in
+    let k := length pre in
+    let t := tabs_nth (tables hh) k in
+    plain_t t = true ->
+    oclean_run k (init_state (fst t), snd t) hh xs = true ->
+    law_hist_o k hh i l_init (orun (init_state (fst t), snd t) xs) = [].
+Proof. exact interleaved_class_ops. Qed.
+Print Assumptions law_holds_on_interleaved_class_operations.
+
+(* Non-vacuity: HasTraits-derived class with a declared wildcard; use; add a longer and a shorter wildcard;
+   use names matching both / one; add an explicit write-once name; a rejected repetition; a late
+   wildcard for names not touched so far; uses in between *)
+Example interleaved_class_operations_nontrivial :
+  let hh := roots ++ [mkClass [([100; 95], PTyped VInt 7)] [0%nat]] in
+  let t := tabs_nth (tables hh) 3 in
+  let xs := [OObj (OSet [122] 1); OObj (OGet [100; 120]); OCls [99; 97; 98; 95] (PTyped VInt 7);
+             OCls [99; 95] (PTyped VStr 102); OObj (OGet [99; 97; 98; 120]); OObj (OSet [99; 97; 98; 121] 101);
+             OObj (OGet [99; 120]); OCls [99; 113] (PReadOnly VUndef); OObj (OSet [99; 113] 1); OObj (OSet [99; 113] 2);
+             OCls [99; 95] PDisallow; OObj (OGet [122]); OCls [101; 95] (PEvent None); OObj (OGet [101; 120])] in
+  plain_t t = true /\
+  oclean_run 3 (init_state (fst t), snd t) hh xs = true /\
+  map (fun x => o_out (snd x)) (orun (init_state (fst t), snd t) xs) =
+  [Done; Val 7; Done; Done; Val 7; Raise TraitError; Val 102; Done; Done; Raise TraitError; Raise TraitError;
+   Val 1; Done; Raise AttributeError].
+Proof. vm_compute. repeat split; reflexivity. Qed.
+
+(* ... and the same for the runs the checker evaluates (CorrT.step_t on the tables of all classes) *)
+Theorem law_holds_on_interleaved_class_operation_runs :
+  forall pre cd post xs i,
+    let hh := pre ++ cd :: post in
+    let k := length pre in
+    let t := tabs_nth (tables hh) k in
+    plain_t t = true ->
+    oclean_run k (init_state (fst t), snd t) hh xs = true ->
+    law_hist_ta [k] hh i [l_init] (run_t hh [k] (tables hh, [([], [])]) (map (top_of k) xs)) = [].
+Proof. exact interleaved_class_ops_run. Qed.
+Print Assumptions law_holds_on_interleaved_class_operation_runs.
